@@ -272,11 +272,24 @@ impl<T> RcInner<T> {
 
     #[inline]
     pub(crate) fn is_not_destructed(&self) -> bool {
+        // The caller is in a critical section (it holds a `WeakSnapshot`), so the epoch read here
+        // cannot be older than the one it is pinned in.
+        let epoch = global_epoch();
         let mut old = State::from_raw(self.state.load(Ordering::SeqCst));
-        while !old.destructed() && old.strong() == 0 {
+        while !old.destructed() {
+            // A `Snapshot` is about to be handed out through a weak pointer, i.e. not through a
+            // link of one of the owners. Leave a trace of that access on the count word: from zero,
+            // the token that makes the pending destruction attempt start over; otherwise the
+            // current epoch, so that an owner which is itself being destructed does not take
+            // the object with it in the same pass (the stamp is too recent for that).
+            let new = if old.strong() == 0 {
+                old.add_strong(1)
+            } else {
+                old.with_epoch(epoch)
+            };
             match self.state.compare_exchange(
                 old.as_raw(),
-                old.add_strong(1).as_raw(),
+                new.as_raw(),
                 Ordering::SeqCst,
                 Ordering::SeqCst,
             ) {
@@ -284,7 +297,7 @@ impl<T> RcInner<T> {
                 Err(curr) => old = State::from_raw(curr),
             }
         }
-        !old.destructed()
+        false
     }
 }
 
